@@ -85,7 +85,7 @@ def run(C, R):
                                    % (m['path'], path_cond(E, path)), where(F, e), {'trace': trace_summary(path)})
             nins += fair_no_requeue(R, E, F, m, paths, owns, 'C07.R5', 'semaphore', excluded)
             nq += fifo_ends(R, E, F, m, paths, 'C07.R3')
-            check_typestate(R, E, F, roles, STATE, m, paths, 'C07.R4')
+            check_typestate(R, E, F, roles, STATE, m, paths, 'C07.R4', only_fair=True)
         R.floor('C07.R1 subtraction-paths[%s]' % cfg, nsub, 5)
         R.floor('C07.R5 enqueue-paths[%s]' % cfg, nins, 1)
         if zero >= 1:
